@@ -182,6 +182,7 @@ class C19(engine.Property):
         "whitelist-preset-dict-reused",
         "laws-assigned-during-construction-through-attributes",
         "whitelist-read-by-subscript",
+        "universe-nested-in-another",
         "assignment-through-item-syntax",
     ]
 
@@ -223,7 +224,7 @@ class C19(engine.Property):
             ),
             "weights": gen.swarm_weights(
                 rng,
-                ["set_laws", "set_applies", "mk_universe", "mk_universe_laws", "mk_laws", "set_rule", "bad_assign", "probe_wl"],
+                ["set_laws", "set_applies", "mk_universe", "mk_universe_laws", "mk_laws", "set_rule", "bad_assign", "probe_wl", "nest"],
                 always=("set_laws", "set_applies"),
             ),
         }
@@ -323,6 +324,12 @@ class C19(engine.Property):
                 if rng.random() < 0.5:
                     return {"op": "set_applies", "L": rng.choice(ls), "u": {"bad": "obj"}}
                 return {"op": "set_laws", "u": rng.choice(us), "L": {"bad": "obj"}}
+            if kind == "nest" and len(us) >= 2:
+                # universes as members of universes: whose laws a universe has
+                # must not depend on where it is nested
+                a, b = rng.sample(us, 2)
+                st.stats["probe:universe-nested-in-another"] += 1
+                return {"op": rng.choice(["uni_add", "uni_add", "uni_remove"]), "u": a, "v": b}
             if kind == "probe_wl" and ls:
                 pairs = [[rng.choice(WL_NAMES[:3]), rng.choice(WL_NAMES[:3] + WL_NAMES[3:])] for _ in range(rng.randint(1, 4))]
                 st.stats["probe:whitelist-read-by-subscript"] += 1
